@@ -217,7 +217,24 @@ func (c *ctx) extraFacts() *leanFile {
 	}
 	l.p("/-- the value modFunc's callback returns -/\ndef modCallbackSrc : String := %s\n", leanStr(modSrc))
 
-	c.facts["extraFacts"] = map[string]interface{}{"filterInputFlagsSrc": inFlags, "filterCondFlagsSrc": condFlags, "hashKeyCases": keyCases,
+	// replaceFunc: what the callback returns (a local that only names a pure expression is replaced by it)
+	replSrc := "?"
+	if fd := c.funcDecl("", "replaceFunc"); fd != nil {
+		hoisted := c.hoistedLocals(fd)
+		ast.Inspect(fd.Body, func(n ast.Node) bool {
+			if r, ok := n.(*ast.ReturnStmt); ok && len(r.Results) == 1 {
+				if call, isCall := r.Results[0].(*ast.CallExpr); isCall {
+					if sel, ok := call.Fun.(*ast.SelectorExpr); ok && sel.Sel.Name == "ReplaceAllString" {
+						replSrc = squeeze(c.srcSubst(r.Results[0], hoisted))
+					}
+				}
+			}
+			return true
+		})
+	}
+	l.p("\n/-- the value replaceFunc's callback returns -/\ndef replaceResultSrc : String := %s\n", leanStr(replSrc))
+
+	c.facts["extraFacts"] = map[string]interface{}{"replaceResultSrc": replSrc, "filterInputFlagsSrc": inFlags, "filterCondFlagsSrc": condFlags, "hashKeyCases": keyCases,
 		"writeKeyPartSrc": partSrc, "asBoolFloatSrc": asBoolFloat, "substringBoundsSrc": sub, "stringToNumberSrc": s2n, "asStringFloatSrc": asStr, "modCallbackSrc": modSrc}
 	return l
 }
